@@ -728,8 +728,17 @@ impl ManyShapes {
                 .collect(),
         )
     }
-    fn case(&self, idx: u64) -> (usize, bool) {
-        (self.ns[(idx / 2) as usize], idx % 2 == 1)
+    /// (distinct lists, long name first, phase shift): the sessions behind a long name are run
+    /// under eight phase shifts (0..7 extra plain declarations in front), so that a periodic event
+    /// of the implementation (every K-th definition block) meets every position of this script's
+    /// own period (a PREPARE reply every 7th declaration, a COM_FIELD_LIST every 11th)
+    fn case(&self, idx: u64) -> (usize, bool, usize) {
+        let plain = self.ns.len() as u64;
+        if idx < plain {
+            return (self.ns[idx as usize], false, 0);
+        }
+        let r = idx - plain;
+        (self.ns[(r / 8) as usize], true, (r % 8) as usize)
     }
 }
 impl Family for ManyShapes {
@@ -737,16 +746,17 @@ impl Family for ManyShapes {
         "many-distinct-column-lists-then-each-again".into()
     }
     fn len(&self) -> u64 {
-        self.ns.len() as u64 * 2
+        self.ns.len() as u64 * 9
     }
     fn run(&self, idx: u64, st: &mut Stats) -> Result<(), Violation> {
-        let (n, long_first) = self.case(idx);
+        let (n, long_first, shift) = self.case(idx);
         st.nontrivial += 1;
         st.bump("many_shapes");
         // the order of declarations: 0..n, then a stride walk over the same n lists
         let stride = [1usize, 3, 5, 7, 11, 13].iter().copied().find(|s| n % s != 0).unwrap_or(1);
         let mut order: Vec<usize> = (0..n).collect();
         order.extend((0..n).map(|i| (i * stride + 1) % n));
+        let order: Vec<(usize, usize)> = (0..shift).map(|i| (usize::MAX, i % n)).chain(order.into_iter().enumerate()).collect();
         let long_cols = Arc::new(vec![Column { table: "t0".into(), column: "L".repeat(5000), coltype: ColumnType::MYSQL_TYPE_LONG, colflags: ColumnFlags::empty() }]);
         let mut cmds = vec![ClientCmd::new(with_byte(COM_STMT_PREPARE, b"first"))];
         let mut behaviours: Vec<Behavior> = vec![Behavior::PrepReply { id: 9, params: param_palette()[0].clone(), cols: Self::shape_of(0, long_first) }];
@@ -757,8 +767,15 @@ impl Family for ManyShapes {
             cmds.push(q(b"long"));
             behaviours.push(Behavior::Prog(Arc::new(vec![WOp::Start(long_cols.clone()), WOp::Finish])));
         }
-        for (j, k) in order.iter().enumerate() {
+        for (j, k) in order.iter() {
+            let (j, k) = (*j, k);
             let cols = Self::shape_of(*k, long_first);
+            if j == usize::MAX {
+                want.push((cmds.len(), cols.clone(), false));
+                cmds.push(q(b"rs"));
+                behaviours.push(Behavior::Prog(Arc::new(vec![WOp::Start(cols), WOp::Finish])));
+                continue;
+            }
             if j % 11 == 10 {
                 cmds.push(ClientCmd::new(with_byte(COM_FIELD_LIST, b"t\0")));
             }
@@ -793,7 +810,7 @@ impl Family for ManyShapes {
         });
         let o = run_conn(sim, ConnCfg::new(behave));
         st.transitions += want.len() as u64;
-        let tag = |e: String| format!("{} distinct column lists{}: {}", n, if long_first { " behind a 5000-byte column name" } else { "" }, e);
+        let tag = |e: String| format!("{} distinct column lists{}: {}", n, if long_first { format!(" behind a 5000-byte column name and {} further declarations", shift) } else { String::new() }, e);
         if let ConnResult::Panic(l, m) = &o.res {
             return Err(Violation::new(panic_key(l, m), tag(format!("run_on panicked at {}: {}", l, m))));
         }
@@ -812,8 +829,8 @@ impl Family for ManyShapes {
         Ok(())
     }
     fn describe(&self, idx: u64) -> J {
-        let (n, long_first) = self.case(idx);
-        json!({"distinct_column_lists": n, "each_declared_twice": true, "behind_a_5000_byte_column_name": long_first})
+        let (n, long_first, shift) = self.case(idx);
+        json!({"distinct_column_lists": n, "each_declared_twice": true, "behind_a_5000_byte_column_name": long_first, "phase_shift": shift})
     }
 }
 
